@@ -20,6 +20,9 @@ for mf in sys.argv[1:]:
 
 PORTED = {"C16a", "C08d", "C01c", "C03d", "C11d", "C08f", "C03a", "C04b", "C09a", "C10a", "C11a", "C14a", "C15c"}
 
+# seeds that the unchanged suite itself catches on the final tree (a later fix made an existing test sensitive to them)
+CAUGHT_BY_SUITE_ON_FINAL_TREE = {"C07b": "b2cd177"}
+
 for sid in sorted(os.listdir(os.path.join(ROOT, "seeded"))):
     d = os.path.join(ROOT, "seeded", sid)
     if not os.path.isdir(d):
@@ -35,9 +38,10 @@ for sid in sorted(os.listdir(os.path.join(ROOT, "seeded"))):
     meta = {
         "id": sid,
         "breaks_property": prop,
-        "round": 1 if sid[3] in "ab" else 2,
-        "origin": "independent sub-agent given only the property text and its own scratch worktree of /repo (nothing from /verif)" + ("" if sid[3] in "ab" else "; round 2: plus one-paragraph descriptions of the two round-1 changes of that property, to avoid repeats"),
+        "round": {"a": 1, "b": 1, "c": 2, "d": 2, "e": 3, "f": 3, "g": 4, "h": 4}[sid[3]],
+        "origin": "independent sub-agent given only the property text and its own scratch worktree of /repo (nothing from /verif)" + ("" if sid[3] in "ab" else "; later rounds: plus one-paragraph descriptions of the earlier changes of that property, to avoid repeats"),
         "ported_after_fix_commits": sid in PORTED,
+        "passes_existing_suite_on_final_tree": sid not in CAUGHT_BY_SUITE_ON_FINAL_TREE,
         "needs_in_order_to_manifest": needs[:3] if needs else [" ".join(notes.split())[:600]],
         "demonstration": {"files": sorted(f for f in os.listdir(d) if f.endswith("_test.go")), "command": demo},
         "confirmed_by": "tools/verify_seed.sh in a fresh scratch worktree: patch applies to HEAD, `go build ./...` and `go build -tags verif ./...` succeed, the unedited suite passes with the patch (`go test -count=1 -skip TestSeed ./...`), the demonstration passes without the patch and fails with it",
